@@ -188,6 +188,9 @@ def check_rings(sh, uc_mod, cell, sym, limit, tol, case):
     seen = {}
     for r, d in enumerate(rds):
         members = [tuple(int(x) for x in h) for h in uc.ringhkls[d]]
+        if any(m not in ds_of for m in members):
+            sh.violation("makerings:ring-member-not-in-the-reflection-list", case, {"ring": r, "hkl": [m for m in members if m not in ds_of][0]})
+            return 0
         md = sorted(ds_of[m] for m in members)
         if any(md[i + 1] - md[i] >= tol for i in range(len(md) - 1)):
             sh.violation("makerings:neighbours-differ-by-more-than-tol", case, {"ring": r})
